@@ -413,6 +413,10 @@ func (f *g2lFn) zero(t types.Type, at ast.Node) string {
 	if isBytesBuffer(t) || f.isAccum(t) {
 		return "([] : Bytes)"
 	}
+	if _, ok := t.(*types.Signature); ok {
+		// the nil function value: never called by correct code; any function stands for it
+		return "(default : " + f.leanType(t, at) + ")"
+	}
 	if at2, ok := t.(*types.Array); ok && intKindOf(at2.Elem()) == kU8 {
 		return fmt.Sprintf("(List.replicate %d (0 : UInt8))", at2.Len())
 	}
@@ -554,6 +558,9 @@ func (f *g2lFn) exprAs(b *binds, e ast.Expr, t types.Type) string {
 		return f.zero(t, e)
 	}
 	if t != nil {
+		if r := f.toIface(b, e, t); r != "" {
+			return r
+		}
 		if n, ok := t.(*types.Named); ok {
 			if variants, ok := f.u.sumTypes[n.Obj().Name()]; ok {
 				at := f.typeOf(e)
@@ -797,8 +804,51 @@ func (f *g2lFn) expr(b *binds, e ast.Expr) string {
 		f.bad(e, "type assertion %s", show(e))
 	case *ast.FuncLit:
 		// func(r T) U { return <pure expr> }
+		// Go closures capture variables by reference, the Lean function captures the current values: refuse the
+		// translation if a captured variable is assigned after the literal
+		for _, cv := range f.usedOuter([]ast.Node{e.Body}, e.Pos(), nil) {
+			ast.Inspect(f.fd.Body, func(n ast.Node) bool {
+				if n == nil || n.End() <= e.End() {
+					return n == nil || n.End() > e.End() || true
+				}
+				check := func(l ast.Expr) {
+					for {
+						switch x := l.(type) {
+						case *ast.SelectorExpr:
+							l = x.X
+							continue
+						case *ast.IndexExpr:
+							l = x.X
+							continue
+						case *ast.StarExpr:
+							l = x.X
+							continue
+						}
+						break
+					}
+					if id, ok := l.(*ast.Ident); ok && id.Pos() > e.End() {
+						if o, _ := f.p.info.Uses[id].(*types.Var); o == cv {
+							f.bad(e, "function literal captures %s, which is assigned later (capture by reference)", cv.Name())
+						}
+					}
+				}
+				switch st := n.(type) {
+				case *ast.AssignStmt:
+					if st.Pos() > e.End() {
+						for _, l := range st.Lhs {
+							check(l)
+						}
+					}
+				case *ast.IncDecStmt:
+					if st.Pos() > e.End() {
+						check(st.X)
+					}
+				}
+				return true
+			})
+		}
 		if len(e.Body.List) == 1 && e.Type.Params != nil {
-			if rs, ok := e.Body.List[0].(*ast.ReturnStmt); ok && len(rs.Results) == 1 {
+			if rs, ok := e.Body.List[0].(*ast.ReturnStmt); ok && len(rs.Results) >= 1 {
 				ps := []string{}
 				for _, fld := range e.Type.Params.List {
 					for _, n := range fld.Names {
@@ -806,7 +856,21 @@ func (f *g2lFn) expr(b *binds, e ast.Expr) string {
 					}
 				}
 				var lb binds
-				body := f.expr(&lb, rs.Results[0])
+				body := ""
+				if len(rs.Results) == 1 {
+					body = f.expr(&lb, rs.Results[0])
+				} else {
+					sig, _ := f.typeOf(e).(*types.Signature)
+					parts := []string{}
+					for i, r := range rs.Results {
+						var want types.Type
+						if sig != nil && i < sig.Results().Len() {
+							want = sig.Results().At(i).Type()
+						}
+						parts = append(parts, f.exprAs(&lb, r, want))
+					}
+					body = tuple(parts)
+				}
 				if len(lb.lines) == 0 {
 					return "(fun " + strings.Join(ps, " ") + " => " + body + ")"
 				}
@@ -1089,4 +1153,70 @@ func (f *g2lFn) isAccum(t types.Type) bool {
 		return false
 	}
 	return f.u.accumTypes[n.Obj().Pkg().Name()+"."+n.Obj().Name()]
+}
+
+// toIface: a value of a concrete type of the package used where a configured interface is expected (return v, nil with
+// v *verifier and result type Verifier): the Lean value of the interface is built from the type's translated methods —
+// a structure of the method values (ifaceStructs) or the single method as a function (ifaces).  "" if not applicable.
+func (f *g2lFn) toIface(b *binds, e ast.Expr, t types.Type) string {
+	n, ok := t.(*types.Named)
+	if !ok {
+		return ""
+	}
+	_, isStruct := f.u.ifaceStructs[n.Obj().Name()]
+	_, isFn := f.u.ifaces[n.Obj().Name()]
+	iface, isI := n.Underlying().(*types.Interface)
+	if !isI || !(isStruct || isFn) {
+		return ""
+	}
+	at := f.typeOf(e)
+	if at == nil {
+		return ""
+	}
+	if pt, ok := at.(*types.Pointer); ok {
+		at = pt.Elem()
+	}
+	an, ok := at.(*types.Named)
+	if !ok || an.Obj().Pkg() != f.p.pkg {
+		return ""
+	}
+	if _, isIface := an.Underlying().(*types.Interface); isIface {
+		return ""
+	}
+	x := f.expr(b, e)
+	method := func(m *types.Func) string {
+		callee, ok := g2l.fns[f.u.pkgDir+"."+an.Obj().Name()+"."+m.Name()]
+		if !ok {
+			f.bad(e, "conversion of %s to %s: method %s is not translated (list it before this function)", an.Obj().Name(), n.Obj().Name(), m.Name())
+		}
+		if !callee.pure || callee.fuel {
+			f.bad(e, "conversion of %s to %s: method %s is not a pure definition", an.Obj().Name(), n.Obj().Name(), m.Name())
+		}
+		pre := ""
+		for _, a := range callee.absUsed {
+			f.useAbs(a)
+			pre += a + " "
+		}
+		sig := m.Type().(*types.Signature)
+		if sig.Params().Len() == 0 {
+			return "(" + callee.leanName + " " + pre + x + ")"
+		}
+		ps := []string{}
+		for i := 0; i < sig.Params().Len(); i++ {
+			ps = append(ps, fmt.Sprintf("a%d", i))
+		}
+		return "(fun " + strings.Join(ps, " ") + " => " + callee.leanName + " " + pre + x + " " + strings.Join(ps, " ") + ")"
+	}
+	if isFn {
+		if iface.NumMethods() != 1 {
+			f.bad(e, "interface %s configured as a function has %d methods", n.Obj().Name(), iface.NumMethods())
+		}
+		return method(iface.Method(0))
+	}
+	parts := []string{}
+	for i := 0; i < iface.NumMethods(); i++ {
+		m := iface.Method(i)
+		parts = append(parts, leanIdent(m.Name())+" := "+method(m))
+	}
+	return "({ " + strings.Join(parts, ", ") + " } : " + n.Obj().Name() + ")"
 }
